@@ -306,6 +306,11 @@ impl Transform {
 fn invert(ts: &Transform) -> Option<Transform> {
     debug_assert!(!ts.is_identity());
 
+    // An infinite scale would "invert" to a zero scale: a non-finite matrix has no inverse.
+    if !ts.is_finite() {
+        return None;
+    }
+
     if ts.is_scale_translate() {
         let inv_ts = if ts.has_scale() {
             let inv_x = ts.sx.invert();
